@@ -60,7 +60,14 @@ TwoPages06 == {[tree |-> Tree06n(LayB, [n \in {"home", "other", "zlast"} |-> CAS
               \cup {[tree |-> Tree06n(LayC, [n \in {"home", "other"} |-> IF n = "home" THEN <<InsertE("row", Var("q"), 1), InsertE("foot", StrL("F1"), 1)>>
                                                                         ELSE <<InsertB("row", <<H("r2")>>, 1)>>]), page |-> pg, d |-> d,
                      tags |-> <<"c06", "pages-of-one-layout">>] : pg \in {"home", "other"}, d \in DataSets06}
-Good06 == TwoPages06 \cup
+\* layout and component names with a dot in their last element ('~main.v2' is the file layouts/main.v2 + extension)
+DotNames06 == {[tree |-> [n \in {"home", "layouts/main.v2", "layouts/x.y/base", "components/card.v1"} |->
+                            CASE n = "home" -> Tpl(u, <<InsertE("title", StrL("T"), 1), InsertB("content", <<H("c:"), Comp(Alias("card.v1"), <<Arg("name", Var("t"))>>, <<>>, 1)>>, 1)>>)
+                              [] n = "components/card.v1" -> Tpl(NoUse, <<H("card:"), P(Var("name"))>>)
+                              [] OTHER -> Tpl(NoUse, <<H(n), H(":")>> \o LayA)],
+                 page |-> "home", d |-> d, tags |-> <<"c06", "dotted-names">>] :
+                 u \in {Alias("main.v2"), Ref("layouts/main.v2"), Alias("x.y/base"), Ref("layouts/x.y/base")}, d \in DataSets06}
+Good06 == TwoPages06 \cup DotNames06 \cup
           {[tree |-> Tree06(<<H("<plain>"), P(Var("t"))>>, <<H("only text")>>, u), page |-> "home", d |-> d, tags |-> <<"c06", "no-reserves">>] :
              u \in {Ref("layouts/main"), Alias("main")}, d \in DataSets06}      \* a layout without reserves, a page without inserts
           \cup {[tree |-> Tree06(LayA, pb, u), page |-> "home", d |-> d, tags |-> <<"c06", "A">>] :
@@ -118,13 +125,16 @@ CompSlotFirst == <<Slot("head", 1), H("|"), Slot("", 1), H("|"), Slot("foot", 1)
 CompEcho == <<H("<"), P(Var("x")), H(":"), P(Dot(Var("loop"), "iter")), H(":"), P(Var("who")), H(">")>>
 CompSetter == <<Assign("t", StrL("in"), 1), H("("), P(Var("t")), H(")")>>
 CompBump == <<Assign("cnt", Bin("+", Var("cnt"), IntL(1)), 1), P(Var("cnt")), Slot("", 1)>>
-Comps07 == [n \in {"components/plain", "components/def", "components/named", "components/both", "components/two", "card",
+\* arguments that are objects / arrays of objects themselves
+CompDeep == <<H("deep:"), P(Dot(Var("user"), "name")), H("/"), P(Var("n")), H("/"), P(Dot(Idx(Var("list"), IntL(0)), "a"))>>
+Comps07 == [n \in {"components/deep", "components/plain", "components/def", "components/named", "components/both", "components/two", "card",
                    "components/setter", "components/bump", "components/echo", "components/edges"} |->
               CASE n = "components/plain" -> Tpl(NoUse, CompPlain) [] n = "components/def" -> Tpl(NoUse, CompDef)
                 [] n = "components/named" -> Tpl(NoUse, CompNamed) [] n = "components/both" -> Tpl(NoUse, CompBoth)
                 [] n = "components/two" -> Tpl(NoUse, CompTwo)
                 [] n = "components/echo" -> Tpl(NoUse, CompEcho) [] n = "components/edges" -> Tpl(NoUse, CompSlotFirst)
                 [] n = "components/setter" -> Tpl(NoUse, CompSetter) [] n = "components/bump" -> Tpl(NoUse, CompBump)
+                [] n = "components/deep" -> Tpl(NoUse, CompDeep)
                 [] n = "card" -> Tpl(NoUse, <<H("card:"), P(Var("name"))>>)]
 Uses == {Comp(Alias("plain"), <<Arg("name", StrL("Ann"))>>, <<>>, 1), Comp(Alias("plain"), <<Arg("name", Var("who"))>>, <<>>, 1),
          Comp(Ref("components/plain"), <<Arg("name", Bin("+", Var("who"), StrL("!")))>>, <<>>, 1),
@@ -140,6 +150,9 @@ Uses == {Comp(Alias("plain"), <<Arg("name", StrL("Ann"))>>, <<>>, 1), Comp(Alias
          Comp(Alias("named"), <<Arg("n", IntL(1)), Arg("big", BoolL(FALSE))>>, <<Sl("head", <<H(" "), P(Var("who")), H(" ")>>), Sl("foot", <<H("\n  "), If(<<Br(Var("yes"), <<H("y")>>)>>, NoElse, 1), H("\n")>>)>>, 1),
          Comp(Alias("def"), <<>>, <<Sl("", <<H("  "), P(Var("cnt")), H("\t")>>)>>, 1),
          Comp(Alias("edges"), <<>>, <<Sl("head", <<H("H")>>)>>, 1), Comp(Alias("edges"), <<>>, <<Sl("foot", <<H("F")>>), Sl("", <<H("D")>>), Sl("head", <<P(Var("who"))>>)>>, 1),
+         \* nested object literals as argument values (written without blanks their closing braces touch: "}}" inside a directive)
+         Comp(Alias("deep"), <<Arg("n", IntL(1)), Arg("list", ArrL(<<ObjL(<<[key |-> "a", ex |-> IntL(7)]>>)>>)), Arg("user", ObjL(<<[key |-> "name", ex |-> Var("who")]>>))>>, <<>>, 1),
+         Comp(Alias("deep"), <<Arg("user", ObjL(<<[key |-> "inner", ex |-> ObjL(<<[key |-> "x", ex |-> IntL(1)]>>)], [key |-> "name", ex |-> StrL("last")]>>)), Arg("list", ArrL(<<ObjL(<<[key |-> "a", ex |-> Var("cnt")]>>)>>)), Arg("n", Var("who"))>>, <<>>, 1),
          \* an argument whose value is nil, empty or falsy is bound like any other
          Comp(Alias("plain"), <<Arg("name", NilL)>>, <<>>, 1), Comp(Alias("two"), <<Arg("a", StrL("")), Arg("b", IntL(0)), Arg("c", BoolL(FALSE))>>, <<>>, 1),
          Comp(Alias("named"), <<Arg("n", NilL), Arg("big", NilL)>>, <<Sl("head", <<H("h")>>)>>, 1)}
@@ -203,6 +216,7 @@ Esc10 == {[tree |-> [n \in DOMAIN Comps07 \cup {"home", "layouts/main"} |->
 
 (* ---------- C07 / C04: an argument named like a visible variable of another type is bound or refused, never dropped ---------- *)
 PolicyShadow == "shadow"
+LayTight == "tight"
 SepLines == "\n    "
 SepComment == "\n  {{-- between --}}\n  "
 OuterVals == {IntL(7), BoolL(TRUE), BoolL(FALSE), Lit(F(5, 1), "2.5", "float"), ArrL(<<IntL(1)>>)}
@@ -255,6 +269,7 @@ Cases == CASE Family = "c06" -> Good06 \cup Bad06
            [] Family = "c07collide" -> Collide07
            [] Family = "c10tree" -> Esc10
            [] Family = "c07" -> Good07 \cup InLayout07 \cup Bad07
+           [] Family = "c07tight" -> {c \in Good07 \cup InLayout07 : \E n \in DOMAIN c.tree : \E u \in ToSet(Collect(c.tree[n].body, "comp")) : u.args # <<>>}
            [] Family \in {"c07lines", "c07comment"} -> {c \in Good07 \cup InLayout07 : \E n \in DOMAIN c.tree : Collect(c.tree[n].body, "comp") # <<>>}
 
 (* ------------------------------ running a case ------------------------------ *)
